@@ -73,7 +73,10 @@ CLAIMS["C01"] = dict(
          "nested children), C01_nest_stream_ends (merge / chain / zip outside and inside) and their special cases "
          "(FcProps/C01liveN.lean; executor for nests Fc/ExecN.lean): a one-level nest of well-behaved leaves reaches its "
          "final outcome within 3*steps+1 rounds of the wake-only executor, which prods leaves and plain children alike - "
-         "the wake-up of a leaf travels through both levels and the re-poll reaches that leaf (2*steps+2 refuted). For "
+         "the wake-up of a leaf travels through both levels and the re-poll reaches that leaf (2*steps+2 refuted); "
+         "FcProps/C01liveNAny.lean: the same for every schedule (any waiting plain child or leaf) and for a busy environment "
+         "firing arbitrary further wake-ups, incl. stale wakers of leaves of released inner instances and ids that name "
+         "nothing. For "
          "groups whose membership changes while they are being drained, liveness is checked on the real code "
          "only: the harness's wake-only executor (profiles drain, refill) must never get stuck (monitor LV; the environment "
          "never re-wakes a child that already invoked its waker, the round budget is a multiple of the proven bound, and a "
